@@ -16,7 +16,8 @@ WOPS = ['FULLY_CONNECTED', 'CONV_2D', 'DEPTHWISE_CONV_2D', 'CONV_2D_TRANSPOSE',
 NEIGH = WOPS + ['ADD', 'TANH', 'RESHAPE', 'CONCATENATION', 'SPLIT', 'ABS', 'MUL',
                 'SOFTMAX']
 PLAN_1 = {'uniform': [m for m in md.ALL_MODES if md.kind(m) in
-                      ('WO', 'DRQ', 'FP16')], 'io': ['none']}
+                      ('WO', 'DRQ', 'FP16')] + ['DRQ8a', 'DRQ4a'],
+          'io': ['none']}
 PLAN_2 = {'shipped': False, 'uniform': ['WO8c', 'WO4a', 'DRQ8c', 'DRQ4c', 'FP16'],
           'perop': FMODES, 'io': ['none']}
 PLAN_2Q = {'shipped': False, 'uniform': ['WO8a', 'DRQ8c', 'FP16'],
